@@ -604,6 +604,7 @@ func (s *scope) storeOutputs(descriptor *Descriptor, info *reflection.Constructo
 
 	var requested any
 	var setErr error
+	var stored []any
 	for _, sibling := range siblings {
 		value, ok, err := outputFor(sibling, info, results)
 		if err != nil {
@@ -625,6 +626,16 @@ func (s *scope) storeOutputs(descriptor *Descriptor, info *reflection.Constructo
 
 		key := instanceKey{Type: sibling.Type, Key: sibling.Key, Group: sibling.Group}
 
+		// The same instance under a further identity (As aliases, `return b, b`) is
+		// made resolvable there but owned, and later disposed, only once
+		if alreadyStored(stored, value) {
+			if setErr == nil {
+				s.aliasInstance(sibling, key, value)
+			}
+			continue
+		}
+		stored = append(stored, value)
+
 		// Keep going on error so that every output is handed over (and disposed)
 		if err := s.setInstance(sibling, key, value); err != nil && setErr == nil {
 			setErr = err
@@ -643,6 +654,36 @@ func (s *scope) storeOutputs(descriptor *Descriptor, info *reflection.Constructo
 	}
 
 	return requested, nil
+}
+
+// alreadyStored reports whether value is identical to one of the instances handed over before.
+func alreadyStored(stored []any, value any) bool {
+	if !reflect.ValueOf(value).Comparable() {
+		return false
+	}
+
+	for _, previous := range stored {
+		if reflect.ValueOf(previous).Comparable() && previous == value {
+			return true
+		}
+	}
+
+	return false
+}
+
+// aliasInstance makes an instance that is already owned under another identity
+// resolvable under key as well.
+func (s *scope) aliasInstance(descriptor *Descriptor, key instanceKey, instance any) {
+	switch descriptor.Lifetime {
+	case Singleton:
+		s.rootProvider.storeSingleton(key, instance)
+	case Scoped:
+		s.instancesMu.Lock()
+		if s.instances != nil {
+			s.instances[key] = instance
+		}
+		s.instancesMu.Unlock()
+	}
 }
 
 // outputFor selects the constructor output a descriptor stands for. ok is false when the
@@ -671,7 +712,14 @@ func outputFor(descriptor *Descriptor, info *reflection.ConstructorInfo, results
 		return field.Interface(), true, nil
 
 	case descriptor.MultiReturnIndex >= 0:
-		return results[descriptor.MultiReturnIndex].Interface(), true, nil
+		result := results[descriptor.MultiReturnIndex]
+		switch result.Kind() {
+		case reflect.Pointer, reflect.Interface, reflect.Slice, reflect.Map, reflect.Chan, reflect.Func:
+			if result.IsNil() {
+				return nil, false, nil
+			}
+		}
+		return result.Interface(), true, nil
 
 	default:
 		instance := results[0].Interface()
